@@ -47,6 +47,8 @@ func strategyCfg() ExploreConfig {
 }
 
 func runC07(c *Ctx) {
+	defer checkSessionSetExpiresAt(c, "C07.R10")
+	defer checkConfigGetters(c, "C07.R9", "GetAccessTokenLifespan", "GetRefreshTokenLifespan", "GetAuthorizeCodeLifespan", "GetIDTokenLifespan", "GetDeviceAndUserCodeLifespan", "GetPushedAuthorizeContextLifespan", "GetJWTMaxDuration")
 	readers := c07R1(c)
 	c07JWT(c)
 	c07R2(c, readers)
